@@ -18,8 +18,10 @@ negation and glob lines ignore nothing):
 """
 import hashlib
 import itertools
+import json
 import os
 import shutil
+import traceback
 
 from .. import boot, canon, pool
 
@@ -297,6 +299,27 @@ def _families(tier):
                 _place_targets(t, base, t1 + [x for x in t2 if x not in t1], idents)
             trees.append(t.spec)
     fams.append(('G2 two gitignore files', trees))
+
+    # N: the definition is spelled like the module/package that contains it:
+    #    definition kind x container kind x place
+    trees = []
+    containers = [('file', loc) for loc in ['', 'pkg', 'pkg/sub', 'ns']] + \
+                 [('package', loc) for loc in ['', 'pkg', 'ns']] + \
+                 [('stub', loc) for loc in ['', 'pkg']]
+    for ci, (ck, loc) in enumerate(containers):
+        for ki, kind in enumerate(DEFK):
+            if ck == 'stub' and kind not in ('def', 'class', 'assign', 'ann', 'method', 'cattr'):
+                continue
+            x = idents[(ci + ki) % len(idents)]
+            rel = {'file': _j(loc, x + '.py'), 'package': _j(loc, x, '__init__.py'),
+                   'stub': _j(loc, x + '.pyi')}[ck]
+            t = Tree('N:%s:%s:%s@%s' % (ck, kind, x, loc or '.'), qset='full', orders=['asc'],
+                     idents=[x])
+            t.skeleton(SKEL5, idents, rich=False)
+            t.add(rel, [('assign', 'hq'), (kind, x), ('n_use', 'hq')])
+            t.add(_j(loc, 'other.py'), [(kind, x)])        # same definition in a file named otherwise
+            trees.append(t.spec)
+    fams.append(('N definition named like its own module/package: kind x container x place', trees))
 
     # U: identifiers that start / end with a non-ASCII letter, and a latin-1 encoded source file
     trees = []
@@ -630,7 +653,7 @@ def _project(jedi, env, root, spec):
     return project
 
 
-def _explore_tree(spec, idents, only=None):
+def _explore_tree(spec, idents):
     jedi = boot.boot()
     env = boot.environment()
     base = _fresh_dir('t')
@@ -645,8 +668,6 @@ def _explore_tree(spec, idents, only=None):
         for order in spec.get('orders', ['asc', 'desc']):
             out['states'] += 1
             for q in queries:
-                if only is not None and [order, _qstr(q), q['mode'], q['all_scopes']] != only:
-                    continue
                 out['q'] += 1
                 try:
                     with _dir_order(order):
@@ -677,7 +698,7 @@ def _explore_tree(spec, idents, only=None):
     return out
 
 
-def _explore_limits(spec, only=None):
+def _explore_limits(spec):
     jedi = boot.boot()
     env = boot.environment()
     n_match, n_noise, n_hidden = spec['limits']
@@ -699,8 +720,6 @@ def _explore_limits(spec, only=None):
             out['states'] += 1
             for mode, s in [('search', 'zeta'), ('complete_search', 'ze')]:
                 for a in (False, True):
-                    if only is not None and [order, s, mode, a] != only:
-                        continue
                     out['q'] += 1
                     q = {'mode': mode, 'all_scopes': a, 'type': None, 'path': [s]}
                     try:
@@ -750,7 +769,7 @@ def _buffer_queries(idents):
     return qs
 
 
-def _explore_buffers(task, only=None):
+def _explore_buffers(task):
     """Script.search / complete_search against filtering get_names, one buffer per text."""
     jedi = boot.boot()
     env = boot.environment()
@@ -764,8 +783,6 @@ def _explore_buffers(task, only=None):
                                  project=project)
             for q in _buffer_queries(task['idents']):
                 s = _qstr(q)
-                if only is not None and [k, s, q['mode'], q['all_scopes']] != only:
-                    continue
                 out['q'] += 1
                 want = {'class': 'class', 'def': 'function', None: None}[q['type']]
                 low = q['path'][0].lower()
@@ -800,17 +817,79 @@ def _explore_buffers(task, only=None):
 
 
 def _init():
-    boot.boot()
-    boot.environment()
+    """Worker start: load typeshed's builtins once (forked children inherit the parsed trees)
+    with a throw-away environment whose helper process is gone before any task is forked."""
+    jedi = boot.boot()
+    from jedi.api.environment import SameEnvironment
+    env = SameEnvironment()
+    base = _fresh_dir('w')
+    try:
+        _write_tree(os.path.join(base, 'r'), {'hwarm.py': 'class hwarm:\n    def hw(self): pass\n'})
+        project = jedi.Project(os.path.join(base, 'r'), sys_path=[])
+        project._environment = env
+        list(project.search('hwarm.hw'))
+        list(project.complete_search('hwar', all_scopes=True))
+    finally:
+        shutil.rmtree(base, ignore_errors=True)
+        try:
+            env._get_subprocess()._kill()
+        except Exception:
+            pass
+
+
+def _run_task(task):
+    if 'texts' in task:
+        out = _explore_buffers(task)
+    elif 'limits' in task['spec']:
+        out = _explore_limits(task['spec'])
+    else:
+        out = _explore_tree(task['spec'], task['idents'])
+    only = task.get('only')
+    if only is not None:
+        # a replay re-executes the whole history of its tree and reports the recorded query
+        out['fails'] = [f for f in out['fails']
+                        if [f['order'], f['query'], f['mode'], f['all_scopes']] == only]
+    return out
 
 
 def _work(task):
-    only = task.get('only')
-    if 'texts' in task:
-        return _explore_buffers(task, only)
-    if 'limits' in task['spec']:
-        return _explore_limits(task['spec'], only)
-    return _explore_tree(task['spec'], task['idents'], only)
+    """One tree = one process history.  jedi keeps process-wide state (caches keyed by name or
+    path); what a tree's queries see must not depend on the trees this worker handled before,
+    and must be what a replay in a fresh process sees.  Every task therefore runs in a forked
+    child of the warmed-up worker, with its own environment (helper process)."""
+    if task.get('only') is not None or os.environ.get('JV_C19_NOFORK'):
+        return _run_task(task)
+    r, w = os.pipe()
+    pid = os.fork()
+    if pid == 0:
+        code = 1
+        try:
+            os.close(r)
+            try:
+                data = json.dumps(_run_task(task))
+                code = 0
+            except BaseException:
+                data = json.dumps({'__error__': traceback.format_exc()})
+            try:
+                boot.environment()._get_subprocess()._kill()
+            except BaseException:
+                pass
+            with os.fdopen(w, 'w') as f:
+                f.write(data)
+        finally:
+            os._exit(code)
+    os.close(w)
+    with os.fdopen(r) as f:
+        data = f.read()
+    _, status = os.waitpid(pid, 0)
+    if not data:
+        return {'fails': [{'site': 'ChildDied(status=%d)' % status, 'order': '-', 'query': '-',
+                           'mode': '-', 'all_scopes': False, 'detail': {}}],
+                'q': 0, 'states': 0, 'req': 0, 'forb': 0, 'classes': [], 'hits': {}}
+    res = json.loads(data)
+    if '__error__' in res:
+        raise RuntimeError('task failed in its child process:\n' + res['__error__'])
+    return res
 
 
 def run(ctx):
